@@ -16,8 +16,9 @@ using d::cmplx_t;
 static const double SNRS[7] = {-10, 0, 10, 20, 40, 60, 80};
 static const double POWS[3] = {1e-6, 1, 1e6};
 // zero-mean letters and letters with a DC component (the power of x includes its DC)
-static const int NSIG = 7;
-static const char* SIGLET[NSIG] = {"tone", "constant-modulus", "broadband", "unipolar-broadband", "tone-on-3x-offset", "constant", "carrier-leak"};
+static const int NSIG = 9;   // the last two are complex only: unequal power of the in-phase and quadrature components
+static const char* SIGLET[NSIG] = {"tone", "constant-modulus", "broadband", "unipolar-broadband", "tone-on-3x-offset", "constant", "carrier-leak",
+                                   "iq-imbalance", "real-signal-as-complex"};
 
 // unit-power-ish signal letters (the exact power is measured in long double)
 static std::vector<cld> signal_letter(int letter, int N, bool cplx) {
@@ -40,6 +41,8 @@ static std::vector<cld> signal_letter(int letter, int N, bool cplx) {
                 x[(size_t)i] = cld(2, -1.5) + (ld)0.3 * cis(PI_L / 4 + q * PI_L / 2);
                 break;
             }
+            case 7: x[(size_t)i] = cld(lcg_gauss(1911, (uint64_t)i), 0.1 * lcg_gauss(1912, (uint64_t)i)); break;   // Q 20 dB below I
+            case 8: x[(size_t)i] = cld(sqrtl(2.0L) * cosl(ph), 0); break;                                           // Q identically zero
             default: x[(size_t)i] = cld(lcg_gauss(1902, (uint64_t)i), lcg_gauss(1903, (uint64_t)i)) * (ld)0.7071067811865476; break;
             }
         } else {
@@ -67,10 +70,16 @@ static void run_awgn(Ctx& ctx, bool T) {
     struct Plan {
         int N, seeds;
     };
+    // quick: 100 seeds at 10^4 samples and 2 seeds at the big sizes 65537 and 200000; thorough: more seeds and odd / prime / 2^k lengths
     std::vector<Plan> plans = {{10000, T ? 1000 : 100}};
     if (T) {
-        plans.push_back({100000, 100});
-        plans.push_back({1000000, 10});
+        plans.push_back({100000, 50});
+        plans.push_back({1000000, 5});
+        for (int n : {9973, 10001, 65536, 65537, 131072}) plans.push_back({n, 20});
+        plans.push_back({200000, 10});
+    } else {
+        plans.push_back({65537, 2});
+        plans.push_back({200000, 2});
     }
     for (int cplx = 0; cplx < 2; ++cplx) {
         const char* chk = cplx ? "awgn.cmplx" : "awgn.real";
@@ -78,11 +87,12 @@ static void run_awgn(Ctx& ctx, bool T) {
         for (const Plan& pl : plans) {
             const int N = pl.N;
             for (int letter = 0; letter < NSIG; ++letter) {
+                if (!cplx && letter >= 7) continue;
                 std::vector<cld> u;   // built lazily, one letter in memory at a time
                 for (int seed = 0; seed < pl.seeds; ++seed) {
                     if (!ctx.take(chk, P().kv("seed", seed).kv("N", N).kv("letter", SIGLET[letter]))) continue;
                     ctx.nontrivial();
-                    ctx.note(letter >= 3 ? "awgn signal letter with DC component" : "awgn zero-mean signal letter");
+                    ctx.note(letter >= 7 ? "awgn complex letter with unequal I/Q power" : (letter >= 3 ? "awgn signal letter with DC component" : "awgn zero-mean signal letter"));
                     if (u.empty()) u = signal_letter(letter, N, cplx != 0);
                     std::map<std::string, AwgnFail> fails;   // first failure of each class within the block
                     for (double pw : POWS) {
@@ -222,7 +232,7 @@ static bool same_out(const std::vector<double>& a, const std::vector<double>& b)
 }
 
 static void run_repro(Ctx& ctx, bool T) {
-    const int SEEDS = T ? 1000 : 100;
+    const int SEEDS = T ? 10000 : 100;   // the replay programs are cheap: 10^4 seeds in the thorough tier
     const size_t expect_len[NOPS] = {1, 3, 2, 1, 3, 1, 3, 5, 8};
     for (int seed = 0; seed < SEEDS; ++seed) {
         if (!ctx.wants("rng.replay")) break;
@@ -286,7 +296,7 @@ static void run_repro(Ctx& ctx, bool T) {
     {
         const int ranges[5][2] = {{1, 1}, {-3, -3}, {-5, 5}, {0, 1}, {-(1 << 30), 1 << 30}};
         for (int r = 0; r < 5; ++r)
-            for (int seed = 0; seed < 20; ++seed) {
+            for (int seed = 0; seed < (T ? 200 : 20); ++seed) {
                 if (!ctx.take("randi.bounds", P().kv("lo", ranges[r][0]).kv("hi", ranges[r][1]).kv("seed", seed))) continue;
                 const int lo = ranges[r][0], hi = ranges[r][1];
                 if (lo != hi) ctx.nontrivial();
@@ -319,7 +329,7 @@ static void run_repro(Ctx& ctx, bool T) {
                 }
             }
         for (int imax : {1, 2, 6, 1000})
-            for (int seed = 0; seed < 20; ++seed) {
+            for (int seed = 0; seed < (T ? 200 : 20); ++seed) {
                 if (!ctx.take("randi.imax", P().kv("imax", imax).kv("seed", seed))) continue;
                 if (imax > 1) ctx.nontrivial();
                 d::rng(seed);
@@ -451,25 +461,33 @@ static void measure_case(Ctx& ctx, const char* family, int N, int H, int bin, in
 }
 
 static void run_measure(Ctx& ctx, bool T) {
+    // grid per length: FULL = every combination of the first three harmonic levels (thorough), SET8 = 8 level patterns,
+    // REDUCED = H in {1,3,5}, 2 level patterns, offsets {0, 0.25, 0.73}, 2 phase letters (108 configurations),
+    // MINI = H in {1,5}, 2 level patterns, offsets {0, 0.25}, 1 phase letter (24 configurations, for the big records in the quick tier)
+    enum Mode { FULL, SET8, REDUCED, MINI };
     struct LenPlan {
         int N;
-        bool full;      // full level product (thorough) instead of the 8-pattern set
-        bool reduced;   // reduced grid: H in {1,3,5}, 2 level patterns, offsets {0, 0.25, 0.73}, 2 phase letters
+        Mode mode;
+        bool full, reduced, mini;
+        LenPlan(int n, Mode m) : N(n), mode(m), full(m == FULL), reduced(m == REDUCED || m == MINI), mini(m == MINI) {}
     };
-    // odd lengths (the one-sided spectrum then has no Nyquist bin and (nfft or len-1)/2 bins: the bin <-> frequency map matters)
-    std::vector<LenPlan> lens = {{2048, T, false}, {4096, T, false}, {5000, T, false}, {8192, T, false},
-                                 {2049, false, !T}, {4095, false, !T}, {5001, false, !T}, {8191, false, !T}, {10001, false, !T}};
+    // odd lengths (the one-sided spectrum then has no Nyquist bin and (nfft or len-1)/2 bins: the bin <-> frequency map matters);
+    // big records 65536, 100000, 131072 (products of the length exceed 2^31)
+    const Mode main_mode = T ? FULL : SET8, odd_mode = T ? SET8 : REDUCED;
+    std::vector<LenPlan> lens = {{2048, main_mode}, {4096, main_mode}, {5000, main_mode}, {8192, SET8},
+                                 {2049, odd_mode}, {4095, odd_mode}, {5001, odd_mode}, {8191, odd_mode}, {10001, odd_mode}};
     if (T) {
-        lens.push_back({10000, false, false});
-        lens.push_back({1 << 17, false, false});
-        lens.push_back({32767, false, true});
-        lens.push_back({100003, false, true});
+        for (int n : {3000, 6000, 10000, 16384}) lens.push_back({n, SET8});
+        for (int n : {32767, 32768, 65536, 65537, 100000, 100003, 131071, 1 << 17}) lens.push_back({n, REDUCED});
+    } else {
+        for (int n : {65536, 100000, 131072}) lens.push_back({n, MINI});
     }
     for (const LenPlan& lp : lens) {
         const int N = lp.N;
         if (!ctx.wants("measure.tones") && !ctx.wants("measure.tones.halfbin")) break;
         for (int H = 1; H <= 5; ++H) {
             if (lp.reduced && H % 2 == 0) continue;
+            if (lp.mini && H == 3) continue;
             // level patterns (index into LEVELS per harmonic)
             std::vector<std::vector<int>> pats;
             if (lp.full) {   // every combination of the first three levels; further levels derived (sum of the others + position) mod 4
@@ -509,6 +527,7 @@ static void run_measure(Ctx& ctx, bool T) {
                     for (size_t pt = 0; pt < pats.size(); ++pt)
                         for (int phl = 0; phl < 3; ++phl) {
                             if (lp.reduced && ((oi & 1) || phl == 1)) continue;
+                            if (lp.mini && (oi == 4 || phl == 0)) continue;
                             measure_case(ctx, "measure.tones", N, H, poss[pi], oi, pats[pt], phl);
                         }
         }
@@ -521,8 +540,8 @@ static void run_measure(Ctx& ctx, bool T) {
 static void run_measure_lowfund(Ctx& ctx, bool T) {
     if (!ctx.wants("measure.lowfund") && !ctx.wants("measure.lowfund.halfbin")) return;
     const std::vector<std::vector<int>> pats_q = {{3, 0, 2, 1}, {2, 3, 0}};                        // {-40,-10,-30,-20}, {-30,-40,-10} dBc
-    const std::vector<std::vector<int>> pats_t = {{3, 0, 2, 1}, {2, 3, 0}, {3, 0}, {1, 3, 2, 0, 3}, {3, 2, 1, 0}};
-    const std::vector<int> lens = T ? std::vector<int>{1 << 14, 1 << 15, 1 << 16, 1 << 17, 40000} : std::vector<int>{1 << 15, 1 << 17};
+    const std::vector<std::vector<int>> pats_t = {{3, 0, 2, 1}, {2, 3, 0}, {3, 0}, {1, 3, 2, 0, 3}};
+    const std::vector<int> lens = T ? std::vector<int>{1 << 14, 1 << 15, 1 << 17, 40000} : std::vector<int>{1 << 15, 1 << 17};
     const std::vector<int> bins = T ? std::vector<int>{110, 130, 150, 170, 200} : std::vector<int>{110, 150, 200};
     for (int N : lens)
         for (int bin : bins)
